@@ -9,6 +9,8 @@ import EspadaVerif.Lemmas.TokenFacts
 import EspadaVerif.Lemmas.RangeAux
 import EspadaVerif.Lemmas.FormatFacts
 import EspadaVerif.Lemmas.RankPairFacts
+import EspadaVerif.Lemmas.RoundtripToken
+import EspadaVerif.Lemmas.RoundtripRange
 import EspadaVerif.Props.C09
 
 namespace EspadaVerif.C06
@@ -20,8 +22,8 @@ variable {W : Type}
 in particular every token the formatter emits and every parsed token) parses back to an equal token. -/
 theorem C06_token (wt : WText W) (inDom : W → Prop) (hok : WTextOk wt inDom) (tok : Token W)
     (hk : TokenFacts.TokenOk tok.kind) (hw : inDom tok.prob) :
-    parseToken wt (tok.show wt) = .ok tok := by
-  sorry
+    parseToken wt (tok.show wt) = .ok tok :=
+  RoundtripToken.parse_show wt inDom hok tok hk hw
 
 /-- **C06 (range).** For every range whose combos are pairs of distinct cards (in canonical order) with weights in the
 domain, the text form parses back to a range with the same combos and the same weights — however the combos group
@@ -29,6 +31,29 @@ into complete rank pairs, runs of adjacent rank pairs with equal weight, or left
 theorem C06_range (wt : WText W) (inDom : W → Prop) (hok : WTextOk wt inDom) (r : HandRange W)
     (hr : ∀ e ∈ r, ComboOk e.1 ∧ inDom e.2) :
     ∃ txt r', showRange wt r = .ok txt ∧ parseRange wt txt = .ok r' ∧ ∀ c, r'.lookup c = r.lookup c := by
-  sorry
+  -- the tokens the formatter writes: all well formed, weights in the domain, expansions inside the range
+  have hsound := RoundtripRange.toks_sound wt inDom hok r hr
+  have hgood : ∀ tok ∈ RoundtripRange.toksOf wt r,
+      parseToken wt (tok.show wt) = .ok tok ∧ TokenFacts.TokenOk tok.kind := by
+    intro tok ht
+    obtain ⟨h1, h2, _⟩ := hsound tok ht
+    exact ⟨C06_token wt inDom hok tok h1 h2, h1⟩
+  have hclean : ∀ p ∈ (RoundtripRange.toksOf wt r).map (Token.show wt), RoundtripToken.Clean p ∧ p ≠ [] := by
+    intro p hp
+    obtain ⟨tok, ht, rfl⟩ := List.mem_map.mp hp
+    obtain ⟨h1, h2, _⟩ := hsound tok ht
+    exact RoundtripToken.clean_show wt inDom hok tok h1 h2
+  -- the re-parsed history holds exactly the entries of the expansions of the tokens
+  obtain ⟨r', hgo, hmem⟩ := RoundtripRange.go_mem wt (RoundtripRange.toksOf wt r) hgood []
+  refine ⟨_, r', FormatFacts.showRange_eq wt r, ?_, ?_⟩
+  · exact (RoundtripRange.parseRange_join wt _ hclean).trans hgo
+  · apply RoundtripRange.lookup_eq_of
+    · intro c w hcw
+      rcases (hmem (c, w)).mp hcw with h | ⟨tok, ht, es, hes, he⟩
+      · cases h
+      · exact (hsound tok ht).2.2 es hes (c, w) he
+    · intro c w hl
+      obtain ⟨tok, ht, es, w', hes, he⟩ := RoundtripRange.toks_cover wt inDom hok r hr c w hl
+      exact ⟨w', (hmem (c, w')).mpr (Or.inr ⟨tok, ht, es, hes, he⟩)⟩
 
 end EspadaVerif.C06
